@@ -185,16 +185,14 @@ func (x *Exec) sprintf(s *State, site ssa.Instruction, format *Term, argv Val) *
 				case t.S == SBool && (verb == "%v" || verb == "%t"):
 					piece = Ite(t, Str("true"), Str("false"))
 				case t.S == SInt && isIntType(iv.Dyn) && regexp.MustCompile(`^%[0-9]+d$`).MatchString(verb):
-					// width-padded decimal: digits preceded by spaces up to the width
+					// width-padded decimal: a deterministic function of the value
+					// (uninterpreted), at least `width` long, ending in the digits
 					digits := Ite(Ge(t, Int(0)), StrFromInt(t), Concat(Str("-"), StrFromInt(Sub(Int(0), t))))
 					var w int64
 					fmt.Sscanf(verb[1:len(verb)-1], "%d", &w)
-					pad := x.freshStr(s, site, fmt.Sprintf("pad%d", k))
-					s.assume(Eq(StrLen(pad), Ite(Ge(Int(w), StrLen(digits)), Sub(Int(w), StrLen(digits)), Int(0))))
-					s.assume(Eq(pad, StrReplaceAll(pad, Str(" "), Str(" ")))) // no-op, keeps pad referenced
-					i := Var("i!p", SInt)
-					s.assume(Forall([]*Term{i}, Implies(And(Ge(i, Int(0)), Lt(i, StrLen(pad))), Eq(StrAt(pad, i), Str(" ")))))
-					piece = Concat(pad, digits)
+					piece = UF(fmt.Sprintf("ufs_fmt_%dd", w), SString, t)
+					s.assume(Ge(StrLen(piece), Int(w)))
+					s.assume(StrSuffixOf(digits, piece))
 				}
 			}
 		}
@@ -379,6 +377,29 @@ func (x *Exec) libCall(s *State, site ssa.Instruction, fn *ssa.Function, name st
 			k(s, &TupleV{E: []Val{sv.Len, nilErr()}})
 			return true
 		}
+	case "(*bytes.Buffer).Read":
+		x.used(name + ": hands out and consumes the first min(len(p), Len()) bytes; io.EOF iff the buffer is empty and len(p) > 0")
+		x.recvNonNil(s, site, args[0], name)
+		if dst, ok := args[1].(*SliceV); ok {
+			c := x.absGet(s, args[0], "content")
+			n := Ite(Le(dst.Len, StrLen(c)), dst.Len, StrLen(c))
+			if dst.Obj != nil {
+				av := x.E.objVal(s, dst.Obj).(*ArrV)
+				if av.IsStr {
+					total := StrLen(av.T)
+					nt := Concat(Substr(av.T, Int(0), dst.Off), Substr(c, Int(0), n), Substr(av.T, Add(dst.Off, n), Sub(total, Add(dst.Off, n))))
+					na := *av
+					na.T = nt
+					s.heap[dst.Obj.id] = &na
+					x.recordWrite(s, dst.Obj, nil)
+				}
+			}
+			x.absSet(s, args[0], "content", Substr(c, n, Sub(StrLen(c), n)))
+			e := x.freshErr(s, site, "bufread.err")
+			s.assume(Eq(e.Nil, Not(And(Eq(StrLen(c), Int(0)), Gt(dst.Len, Int(0))))))
+			k(s, &TupleV{E: []Val{n, e}})
+			return true
+		}
 	case "(*strings.Builder).String", "(*bytes.Buffer).String":
 		x.used(name)
 		if pv, ok := args[0].(*PtrV); ok && name == "(*bytes.Buffer).String" {
@@ -548,6 +569,20 @@ func (x *Exec) libCall(s *State, site ssa.Instruction, fn *ssa.Function, name st
 		return true
 	case "(*sync.Pool).Put":
 		x.used(name)
+		// pool invariant behind poolGet: only emptied buffers go back
+		if pv, ok := args[0].(*PtrV); ok && pv.Obj != nil && (strings.HasSuffix(pv.Obj.name, "pool.BytesBuffer") || strings.HasSuffix(pv.Obj.name, "pool.BuilderBuffer")) {
+			if iv, ok := args[1].(*IfaceV); ok && iv.Dyn != nil {
+				if bp, ok := iv.V.(*PtrV); ok && bp.Obj != nil {
+					if a, ok := x.load(s, bp).(*AbsV); ok {
+						if c, ok := a.F["content"].(*Term); ok {
+							x.oblige(s, "assert", "pool-put-reset@"+x.label(s, site), Eq(c, Str("")), site, "a buffer handed back to the pool must be empty: Get() is assumed to return empty buffers")
+						}
+					}
+				}
+			} else {
+				x.oblige(s, "assert", "pool-put-reset@"+x.label(s, site), TFalse, site, "a value of unknown type is put into a buffer pool")
+			}
+		}
 		k(s, nil)
 		return true
 	case "sync/atomic.AddInt32", "sync/atomic.AddInt64":
@@ -746,9 +781,9 @@ func (x *Exec) libInvoke(s *State, site ssa.Instruction, full string, recv Val, 
 
 // ghostPrint appends printed text to the ghost stdout stream.
 func (x *Exec) ghostPrint(s *State, site ssa.Instruction, name string, args []Val) {
-	cur, _ := s.ghost["stdout"].(*Term)
+	cur, _ := s.ghost["g_stdout"].(*Term)
 	if cur == nil {
-		cur = Var("stdout@entry", SString)
+		cur = Var("g_stdout@entry", SString)
 	}
 	var text *Term
 	if name == "fmt.Printf" {
@@ -768,12 +803,8 @@ func (x *Exec) ghostPrint(s *State, site ssa.Instruction, name string, args []Va
 			text = Concat(text, Str("\n"))
 		}
 	}
-	s.ghost["stdout"] = Concat(cur, text)
-	cnt, _ := s.ghost["printCalls"].(*Term)
-	if cnt == nil {
-		cnt = Int(0)
-	}
-	s.ghost["printCalls"] = Add(cnt, Int(1))
+	s.ghost["g_stdout"] = Concat(cur, text)
+	s.writes["ghost:var:g_stdout"] = writeRec{obj: x.fsMarker()}
 }
 
 // isColourValue: argument i of the call is a conversion from one of the
